@@ -2,6 +2,7 @@ import SJ.Proofs.Tables
 import SJ.Proofs.ParseIff
 import SJ.Proofs.ParseWF
 import SJ.Proofs.Bridge
+import SJ.Proofs.GoIter
 /-
 C02 — Accepted documents are exposed with exact structure, order and values.
 -/
@@ -85,5 +86,31 @@ theorem C02_parseND_value (cfg : Cfg) (input : Bytes) (he : EdgeOK input) (hsz :
     ∃ pj, parseND cfg input = .ok pj ∧ WF pj (vs.map ofSpec) ∧ owalk pj = .ok ((vs.map ofSpec).map DecodeSound.toOVal) := by
   obtain ⟨pj, _, hp, _, _, _, _, hwf, hw⟩ := SJ.ParseIff.parseND_accepts cfg input he hsz vs h
   exact ⟨pj, hp, hwf, hw⟩
+
+open SJ.GoSem SJ.GoIter in
+/-- **The cursor functions of the model are the meaning of their Go source.** `Generated.goIter_*` are the syntax trees
+    the translator prints from `parsed_json.go` on every run; `GoSem.runFun` interprets them (`GoSem/Lang.lean`). For
+    every tape, every iterator whose view lies inside the tape and enough fuel for the NOP-skipping loop, running
+    `PeekNextTag`, `PeekNext`, `Advance`, `AdvanceInto`, `AdvanceIter` returns exactly what `Iter.peekNextTag` … `Iter.advanceIter`
+    of the hand model return — same value, same receiver (and destination) fields, tape untouched; error ⇔ error, panic ⇔
+    panic, never stuck, never out of fuel. Every theorem about the traversal API (`C02_readback`, `C02_parse_value`, C12, C14)
+    is therefore about this source; any change to these functions changes the trees and breaks this theorem. -/
+theorem C02_cursor_follows_source (pj : PJ) (i dst : Iter) (hl : i.lim ≤ pj.tape.size) (fuel : Nat) (hf : fuelFor i ≤ fuel) :
+    SimV pj.tape i (runFun goFuns goIter_PeekNextTag fuel { env := envOf "i" i, tape := pj.tape }) (i.peekNextTag pj) ∧
+    SimV pj.tape i (runFun goFuns goIter_PeekNext fuel { env := envOf "i" i, tape := pj.tape }) (i.peekNext pj) ∧
+    SimT pj.tape (runFun goFuns goIter_Advance fuel { env := envOf "i" i, tape := pj.tape }) (i.advance pj) ∧
+    SimT pj.tape (runFun goFuns goIter_AdvanceInto fuel { env := envOf "i" i, tape := pj.tape }) (i.advanceInto pj) ∧
+    SimIter pj.tape (runFun goFuns goIter_AdvanceIter fuel
+      { env := envOf "i" i ++ envOf "dst" dst ++ [("i!=dst", .bool true)], tape := pj.tape }) (i.advanceIter pj dst) :=
+  go_iter_source_tie pj i dst hl fuel hf
+
+open SJ.GoSem SJ.GoIter in
+/-- … and the loop-free helpers: `calcNext`, `moveToEnd`, `Type`. -/
+theorem C02_cursor_helpers_follow_source (i : Iter) (into : Bool) (tape : Array UInt64) (fuel : Nat) (hcur : i.cur.toNat < 2^63) :
+    exec goFuns fuel goIter_calcNext.body { env := envOf "i" i ++ [("into", .bool into)], tape := tape } =
+      .normal { env := envOf "i" (i.calcNext into) ++ [("into", .bool into)], tape := tape } ∧
+    exec goFuns fuel goIter_moveToEnd.body { env := envOf "i" i, tape := tape } = .normal { env := envOf "i" i.moveToEnd, tape := tape } ∧
+    SimV tape i (runFun goFuns goIter_Type fuel { env := envOf "i" i, tape := tape }) (.ok i.type) :=
+  ⟨calcNext_exec i into tape fuel hcur, moveToEnd_exec i tape fuel, type_exec i tape fuel⟩
 
 end SJ.Properties.C02
